@@ -730,3 +730,529 @@ Section ReduceProofs.
     exists r. split; [exact E|]. split; [exact Hr|]. exact (is_rem_congr fk _ _ _ _ Hk S).
   Qed.
 End ReduceProofs.
+
+(* ================================================================== 5. xgcd *)
+Section XgcdSpecLemmas.
+  Context {K : Type} (fk : fieldK K).
+  Local Notation "0" := (k0 fk).
+  Local Notation "1" := (k1 fk).
+  Local Infix "*" := (kmul fk).
+  Local Notation peq := (peq fk).
+  Local Notation pzero := (pzero fk).
+  Local Notation coeff := (coeff fk).
+  Local Notation pscale := (pscale fk).
+  Local Notation pdeg := (pdeg fk).
+  Local Notation plead := (plead fk).
+  Add Field kfield_PolyDivProofs_XgcdSpec : (kFT fk).
+
+  Lemma pzero_pscale c p : pzero p -> pzero (pscale c p).
+  Proof. intros Z i. rewrite coeff_pscale, (Z i). ring. Qed.
+  Lemma pscale_pscale c e p : peq (pscale c (pscale e p)) (pscale (c * e) p).
+  Proof. apply peq_intro. intros i. rewrite !coeff_pscale. ring. Qed.
+  Lemma pscale_1 p : peq (pscale 1 p) p.
+  Proof. apply peq_intro. intros i. rewrite coeff_pscale. ring. Qed.
+  Lemma pdeg_pscale c p : c <> 0 -> pdeg (pscale c p) = pdeg p.
+  Proof.
+    intros Hc. apply Z.le_antisymm.
+    - assert (B : (pdeg (pscale c p) < Z.of_nat (Z.to_nat (pdeg p + 1)))%Z); [|pose proof (pdeg_ge fk p); lia].
+      apply pdeg_lt_iff. intros i Hi. rewrite coeff_pscale, coeff_above_pdeg; [ring|]. pose proof (pdeg_ge fk p). lia.
+    - assert (B : (pdeg p < Z.of_nat (Z.to_nat (pdeg (pscale c p) + 1)))%Z); [|pose proof (pdeg_ge fk (pscale c p)); lia].
+      apply pdeg_lt_iff. intros i Hi.
+      assert (E : coeff (pscale c p) i = 0) by (apply coeff_above_pdeg; pose proof (pdeg_ge fk (pscale c p)); lia).
+      rewrite coeff_pscale in E. destruct (k_integral fk _ _ E) as [X|X]; [contradiction|exact X].
+  Qed.
+  Lemma plead_pscale c p : c <> 0 -> ~ pzero p -> plead (pscale c p) = c * plead p.
+  Proof.
+    intros Hc NZ. apply pdeg_nonneg_iff in NZ.
+    assert (NZ' : (0 <= pdeg (pscale c p))%Z) by (rewrite pdeg_pscale by exact Hc; exact NZ).
+    rewrite <- (proj1 (coeff_at_pdeg fk _ NZ')), <- (proj1 (coeff_at_pdeg fk _ NZ)), pdeg_pscale by exact Hc.
+    apply coeff_pscale.
+  Qed.
+  Lemma pdvd_zero_l a : pdvd fk [] a -> pzero a.
+  Proof. intros [q E]. apply peq_nil_pzero. rewrite E. apply pmul_nil_r. Qed.
+End XgcdSpecLemmas.
+
+Section XgcdProofs.
+  Context {F K : Type} (o : fops F) (fk : fieldK K) (ok : F -> Prop) (den : F -> K).
+  Hypothesis H : field_ok o fk ok den.
+  Local Notation "0" := (k0 fk).
+  Local Notation "1" := (k1 fk).
+  Local Infix "*" := (kmul fk).
+  Local Notation D := (map den).
+  Local Notation okl := (Forall ok).
+  Local Notation peq := (peq fk).
+  Local Notation pzero := (pzero fk).
+  Local Notation padd := (padd fk).
+  Local Notation psub := (psub fk).
+  Local Notation pmul := (pmul fk).
+  Local Notation pscale := (pscale fk).
+  Local Notation pdeg := (pdeg fk).
+  Local Notation plead := (plead fk).
+  Local Notation pdvd := (pdvd fk).
+  Add Field kfield_PolyDivProofs_Xgcd : (kFT fk).
+  Add Ring polyring_PolyDivProofs_Xgcd : (poly_ring_theory fk) (setoid (peq_Equivalence fk) (poly_ring_ext fk)).
+
+  Lemma xgcd_loop_unfold fuel x y af a1 bf b1 :
+    pdiv_xgcd_loop o fuel x y af a1 bf b1 =
+    if poly_is_zero o y then PdOk (x, af, bf) else
+    match fuel with
+    | O => PdFuel
+    | S f => match pdiv_naive_divide o x y with
+             | None => PdPanic
+             | Some (q, r) => pdiv_xgcd_loop o f y r a1 (poly_sub o af (poly_mul o q a1)) b1 (poly_sub o bf (poly_mul o q b1))
+             end
+    end.
+  Proof. destruct fuel; reflexivity. Qed.
+
+  Lemma mul_spec a b : okl a -> okl b -> okl (poly_mul o a b) /\ peq (D (poly_mul o a b)) (pmul (D a) (D b)).
+  Proof. intros Ha Hb. exact (naive_multiply_spec o fk ok den H a b Ha Hb). Qed.
+
+  (* the loop: Bezout combinations, the set of common divisors, and enough fuel *)
+  Lemma xgcd_loop_spec X0 Y0 : forall fuel x y af a1 bf b1,
+    okl x -> okl y -> okl af -> okl a1 -> okl bf -> okl b1 ->
+    peq (D x) (padd (pmul (D af) X0) (pmul (D bf) Y0)) ->
+    peq (D y) (padd (pmul (D a1) X0) (pmul (D b1) Y0)) ->
+    (forall c, pdvd c (D x) /\ pdvd c (D y) <-> pdvd c X0 /\ pdvd c Y0) ->
+    (Z.to_nat (pdeg (D y) + 2) <= fuel)%nat ->
+    exists g a b, pdiv_xgcd_loop o fuel x y af a1 bf b1 = PdOk (g, a, b) /\ okl g /\ okl a /\ okl b /\
+                  peq (D g) (padd (pmul (D a) X0) (pmul (D b) Y0)) /\
+                  (forall c, pdvd c (D g) <-> pdvd c X0 /\ pdvd c Y0).
+  Proof.
+    induction fuel as [|f IH]; intros x y af a1 bf b1 Hx Hy Haf Ha1 Hbf Hb1 Bx By Cd Hf; rewrite xgcd_loop_unfold.
+    - (* no fuel: y must be zero *)
+      assert (Z : pzero (D y)) by (apply pdeg_neg_iff; pose proof (pdeg_ge fk (D y)); lia).
+      rewrite (proj2 (is_zero_iff o fk ok den H y Hy) Z).
+      exists x, af, bf. split; [reflexivity|]. split; [exact Hx|]. split; [exact Haf|]. split; [exact Hbf|]. split; [exact Bx|].
+      intros c. rewrite <- Cd. split; [intros Hc; split; [exact Hc|apply pdvd_zero; exact Z]|intros [Hc _]; exact Hc].
+    - destruct (poly_is_zero o y) eqn:Ez.
+      + apply (is_zero_iff o fk ok den H y Hy) in Ez.
+        exists x, af, bf. split; [reflexivity|]. split; [exact Hx|]. split; [exact Haf|]. split; [exact Hbf|]. split; [exact Bx|].
+        intros c. rewrite <- Cd. split; [intros Hc; split; [exact Hc|apply pdvd_zero; exact Ez]|intros [Hc _]; exact Hc].
+      + assert (NZ : ~ pzero (D y)).
+        { intros Z. apply (is_zero_iff o fk ok den H y Hy) in Z. congruence. }
+        destruct (naive_divide_spec o fk ok den H x y Hx Hy NZ) as [q [r [E [Hq [Hr [S1 S2]]]]]]. rewrite E.
+        destruct (mul_spec q a1 Hq Ha1) as [M1 M2]. destruct (mul_spec q b1 Hq Hb1) as [N1 N2].
+        apply IH.
+        * exact Hy.
+        * exact Hr.
+        * exact Ha1.
+        * apply (sub_ok o fk ok den H); assumption.
+        * exact Hb1.
+        * apply (sub_ok o fk ok den H); assumption.
+        * exact By.
+        * (* r = x - q y *)
+          rewrite !(sub_D o fk ok den H) by assumption. rewrite M2, N2.
+          assert (Er : peq (D r) (psub (D x) (pmul (D q) (D y)))) by (rewrite S1; ring).
+          rewrite Er, Bx, By. ring.
+        * intros c. rewrite <- Cd. split.
+          -- intros [Cy Cr]. split; [|exact Cy]. apply (pdvd_peq fk c c (padd (pmul (D q) (D y)) (D r)) (D x)); [reflexivity|symmetry; exact S1|].
+             apply pdvd_padd; [apply pdvd_pmul_l; exact Cy|exact Cr].
+          -- intros [Cx Cy]. split; [exact Cy|].
+             apply (pdvd_peq fk c c (psub (D x) (pmul (D q) (D y)))); [reflexivity|rewrite S1; ring|].
+             apply pdvd_psub; [exact Cx|apply pdvd_pmul_l; exact Cy].
+        * pose proof (pdeg_ge fk (D r)). apply pdeg_nonneg_iff in NZ. lia.
+  Qed.
+
+  (* the extended gcd: never panics, never runs out of fuel; Bezout; g divides both inputs and every common divisor
+     divides g; g is monic or zero *)
+  Theorem xgcd_spec x y : okl x -> okl y ->
+    exists g a b, pdiv_xgcd o x y = PdOk (g, a, b) /\ okl g /\ okl a /\ okl b /\
+                  peq (D g) (padd (pmul (D a) (D x)) (pmul (D b) (D y))) /\
+                  (forall c, pdvd c (D g) <-> pdvd c (D x) /\ pdvd c (D y)) /\
+                  (pzero (D g) \/ plead (D g) = 1).
+  Proof.
+    intros Hx Hy. unfold pdiv_xgcd, pdiv_xgcd_fuel.
+    destruct (xgcd_loop_spec (D x) (D y) (S (length y)) x y (poly_one o) [] [] (poly_one o) Hx Hy
+                (one_ok o fk ok den H) (Forall_nil _) (Forall_nil _) (one_ok o fk ok den H))
+      as [g [a [b [E [Hg [Ha [Hb [Bz Cd]]]]]]]].
+    - rewrite (one_D o fk ok den H). cbn [map]. ring.
+    - rewrite (one_D o fk ok den H). cbn [map]. ring.
+    - intros c. reflexivity.
+    - pose proof (pdeg_le_length fk (D y)) as B. rewrite map_length in B. lia.
+    - rewrite E.
+      (* the normalising scalar *)
+      assert (Hlc : exists lc, ok lc /\ den lc <> 0 /\
+                (poly_leading_coefficient o g = Some (Some lc) /\ den lc = plead (D g) /\ ~ pzero (D g) \/
+                 poly_leading_coefficient o g = Some None /\ lc = fone o /\ pzero (D g))).
+      { destruct (pdeg_neg_iff fk (D g)) as [Z1 _]. destruct (Z.eq_dec (pdeg (D g)) (-1)) as [Y|Y].
+        - exists (fone o). split; [exact (ok1 o fk ok den H)|]. split; [rewrite (den1 o fk ok den H); exact (k1_neq_0 fk)|].
+          right. split; [exact (proj1 (leading_coeff_nonzero o fk ok den H g Hg) (Z1 Y))|]. split; [reflexivity|exact (Z1 Y)].
+        - assert (NZ : ~ pzero (D g)) by (intros Z; apply pdeg_neg_iff in Z; contradiction).
+          destruct (proj2 (leading_coeff_nonzero o fk ok den H g Hg) NZ) as [lc [L1 [L2 [L3 L4]]]].
+          exists lc. split; [exact L2|]. split; [exact L4|]. left. split; [exact L1|]. split; [exact L3|exact NZ]. }
+      destruct Hlc as [lc [Hok [Hnz Hcase]]].
+      assert (Elc : poly_leading_coefficient o g = Some (Some lc) \/ (poly_leading_coefficient o g = Some None /\ lc = fone o)).
+      { destruct Hcase as [[L _]|[L [L' _]]]; [left; exact L|right; split; assumption]. }
+      destruct (fo_inv _ _ _ _ H lc Hok Hnz) as [li [Ei [Hli Dli]]].
+      assert (Eres : (match poly_leading_coefficient o g with
+                      | None => PdPanic
+                      | Some olc => match finv o (match olc with Some c => c | None => fone o end) with
+                                    | None => PdPanic
+                                    | Some li => PdOk (poly_scalar_mul o g li, poly_scalar_mul o a li, poly_scalar_mul o b li)
+                                    end
+                      end) = PdOk (poly_scalar_mul o g li, poly_scalar_mul o a li, poly_scalar_mul o b li)).
+      { destruct Elc as [L|[L L']]; rewrite L; [rewrite Ei; reflexivity|subst lc; rewrite Ei; reflexivity]. }
+      rewrite Eres. clear Eres.
+      exists (poly_scalar_mul o g li), (poly_scalar_mul o a li), (poly_scalar_mul o b li).
+      split; [reflexivity|].
+      split; [apply (scalar_mul_ok o fk ok den H); assumption|].
+      split; [apply (scalar_mul_ok o fk ok den H); assumption|].
+      split; [apply (scalar_mul_ok o fk ok den H); assumption|].
+      rewrite !(scalar_mul_D o fk ok den H) by assumption.
+      assert (Hli0 : den li <> 0) by (rewrite Dli; apply kinv_neq_0; exact Hnz).
+      split; [rewrite Bz, !(pscale_as_pmul fk); ring|].
+      split.
+      + intros c. rewrite <- Cd. split.
+        * intros Hc. apply (pdvd_peq fk c c (pscale (kinv fk (den li)) (pscale (den li) (D g)))); [reflexivity| |apply pdvd_pscale; exact Hc].
+          rewrite pscale_pscale. replace (kinv fk (den li) * den li) with 1 by (field; exact Hli0). apply pscale_1.
+        * apply pdvd_pscale.
+      + destruct Hcase as [[_ [L2 NZ]]|[_ [_ Z]]].
+        * right. rewrite plead_pscale by assumption. rewrite Dli, <- L2. field. exact Hnz.
+        * left. apply pzero_pscale. exact Z.
+  Qed.
+  (* consequences: g divides both inputs; the gcd is zero exactly for two zero inputs *)
+  Corollary xgcd_divides x y g a b : okl x -> okl y -> pdiv_xgcd o x y = PdOk (g, a, b) ->
+    pdvd (D g) (D x) /\ pdvd (D g) (D y) /\ (pzero (D g) <-> pzero (D x) /\ pzero (D y)).
+  Proof.
+    intros Hx Hy E. destruct (xgcd_spec x y Hx Hy) as [g' [a' [b' [E' [_ [_ [_ [Bz [Cd _]]]]]]]]].
+    rewrite E in E'. inversion E'; subst g' a' b'.
+    destruct (proj1 (Cd (D g)) (pdvd_refl fk (D g))) as [G1 G2]. split; [exact G1|]. split; [exact G2|]. split.
+    - intros Z. apply peq_nil_pzero in Z. split; apply pdvd_zero_l; [apply (pdvd_peq fk (D g) [] (D x) (D x)) in G1|apply (pdvd_peq fk (D g) [] (D y) (D y)) in G2];
+        try assumption; reflexivity.
+    - intros [Zx Zy]. apply peq_nil_pzero. rewrite Bz. apply peq_nil_pzero in Zx, Zy. rewrite Zx, Zy, !pmul_nil_r. reflexivity.
+  Qed.
+End XgcdProofs.
+
+(* ================================================================== 6. formal_power_series_inverse_minimal *)
+Section FpsiMinimal.
+  Context {F K : Type} (o : fops F) (fk : fieldK K) (ok : F -> Prop) (den : F -> K).
+  Hypothesis H : field_ok o fk ok den.
+  Local Notation "0" := (k0 fk).
+  Local Notation "1" := (k1 fk).
+  Local Infix "+" := (kadd fk).
+  Local Infix "*" := (kmul fk).
+  Local Notation "- x" := (kopp fk x).
+  Local Notation D := (map den).
+  Local Notation okl := (Forall ok).
+  Local Notation peq := (peq fk).
+  Local Notation coeff := (coeff fk).
+  Local Notation pmul := (pmul fk).
+  Local Notation pone := (pone fk).
+  Add Field kfield_PolyDivProofs_FpsiMin : (kFT fk).
+
+  Lemma coeff_rev (p : list K) i : (i < length p)%nat -> coeff (rev p) i = coeff p (length p - 1 - i).
+  Proof. intros Hi. unfold PolySpec.coeff. rewrite rev_nth by exact Hi. f_equal. lia. Qed.
+
+  Lemma fold_inner_spec b : forall a acc, okl a -> okl b -> ok acc ->
+    ok (fold_left (fadd o) (map2 (fmul o) a b) acc) /\
+    den (fold_left (fadd o) (map2 (fmul o) a b) acc) =
+      den acc + ksum fk (fun t => coeff (D a) t * coeff (D b) t) (length b).
+  Proof.
+    induction b as [|y b IH]; intros a acc Ha Hb Hacc.
+    - assert (E : map2 (fmul o) a [] = []) by (destruct a; reflexivity). rewrite E. cbn [fold_left length ksum].
+      split; [exact Hacc|ring].
+    - inversion Hb as [|? ? Hy Hb']; subst. destruct a as [|x a].
+      + cbn [map2 fold_left map]. split; [exact Hacc|].
+        rewrite (ksum_ext fk _ (fun _ => 0)), ksum_0; [ring|]. intros j _. rewrite coeff_nil. ring.
+      + inversion Ha as [|? ? Hx Ha']; subst. cbn [map2 fold_left].
+        destruct (fo_mul _ _ _ _ H x y Hx Hy) as [M1 M2]. destruct (fo_add _ _ _ _ H acc (fmul o x y) Hacc M1) as [A1 A2].
+        destruct (IH a (fadd o acc (fmul o x y)) Ha' Hb' A1) as [I1 I2]. split; [exact I1|].
+        rewrite I2, A2, M2. cbn [length map]. rewrite (ksum_S_l fk). rewrite !coeff_cons_0.
+        assert (E : ksum fk (fun i => coeff (den x :: D a) (S i) * coeff (den y :: D b) (S i)) (length b)
+                    = ksum fk (fun t => coeff (D a) t * coeff (D b) t) (length b)).
+        { apply ksum_ext. intros j _. rewrite !coeff_cons_S. reflexivity. }
+        rewrite E. ring.
+  Qed.
+  Lemma inner_product_spec a b : okl a -> okl b ->
+    ok (pdiv_inner_product o a b) /\
+    den (pdiv_inner_product o a b) = ksum fk (fun t => coeff (D a) t * coeff (D b) t) (length b).
+  Proof.
+    intros Ha Hb. unfold pdiv_inner_product.
+    destruct (fold_inner_spec b a (fzero o) Ha Hb (ok0 o fk ok den H)) as [I1 I2]. split; [exact I1|].
+    rewrite I2, (den0 o fk ok den H). ring.
+  Qed.
+
+  (* invariant of the loop: after j rounds, g = rev grev has j + 1 coefficients and (f g)_k = [k = 0] for k <= j *)
+  Definition fpsi_inv (f0 : K) (fs : list K) (j : nat) (grev : list F) : Prop :=
+    okl grev /\ length grev = S j /\
+    forall k, (k <= j)%nat -> coeff (pmul (f0 :: fs) (rev (D grev))) k = coeff pone k.
+  Lemma fpsi_min_loop_spec c0 cs1 li : ok c0 -> okl cs1 -> ok li -> den c0 <> 0 -> den li = kinv fk (den c0) ->
+    forall n j grev, fpsi_inv (den c0) (D cs1) j grev ->
+      fpsi_inv (den c0) (D cs1) (n + j) (pdiv_fpsi_min_loop o n cs1 li grev).
+  Proof.
+    intros Hc0 Hcs Hli Nz Eli. induction n as [|n IH]; intros j grev Inv; [exact Inv|].
+    cbn [pdiv_fpsi_min_loop]. replace (S n + j)%nat with (n + S j)%nat by lia. apply IH. clear IH.
+    destruct Inv as [Hg [Lg Cg]].
+    destruct (inner_product_spec cs1 grev Hcs Hg) as [P1 P2].
+    destruct (fo_neg _ _ _ _ H _ P1) as [N1 N2]. destruct (fo_mul _ _ _ _ H _ li N1 Hli) as [M1 M2].
+    set (e := fmul o (fneg o (pdiv_inner_product o cs1 grev)) li) in *.
+    split; [constructor; assumption|]. split; [cbn [length]; lia|].
+    cbn [map rev]. intros k Hk. rewrite coeff_pmul.
+    destruct (Nat.eq_dec k (S j)) as [->|Hne].
+    - (* the new coefficient: f0 e + <f_1.., g_j..> = 0 *)
+      rewrite (ksum_S_l fk). rewrite coeff_cons_0, Nat.sub_0_r.
+      rewrite (coeff_snoc fk), rev_length, map_length, Lg, Nat.ltb_irrefl, Nat.eqb_refl.
+      assert (E : ksum fk (fun i => coeff (den c0 :: D cs1) (S i) * coeff (rev (D grev) ++ [den e]) (S j - S i)) (S j)
+                  = den (pdiv_inner_product o cs1 grev)).
+      { rewrite P2, Lg. apply ksum_ext. intros i Hi. rewrite coeff_cons_S. f_equal.
+        rewrite (coeff_snoc fk), rev_length, map_length, Lg.
+        replace (S j - S i <? S j)%nat with true by (symmetry; apply Nat.ltb_lt; lia).
+        rewrite coeff_rev by (rewrite map_length; lia). rewrite map_length, Lg. f_equal. lia. }
+      rewrite E. unfold PolySpec.pone. rewrite coeff_cons_S, coeff_nil. rewrite M2, N2, Eli. field. exact Nz.
+    - rewrite <- (Cg k ltac:(lia)), coeff_pmul. apply ksum_ext. intros i Hi. f_equal.
+      apply coeff_app_l. rewrite rev_length, map_length. lia.
+  Qed.
+
+  (* f * g = 1 mod X^(precision + 1), for every precision; exactly precision + 1 coefficients *)
+  Theorem fpsi_minimal_spec c0 cs1 n : ok c0 -> okl cs1 -> den c0 <> 0 -> (0 <= n)%Z ->
+    exists g, pdiv_fpsi_minimal o (c0 :: cs1) n = Some g /\ okl g /\ length g = S (Z.to_nat n) /\
+              pmodx fk (S (Z.to_nat n)) (pmul (D (c0 :: cs1)) (D g)) pone.
+  Proof.
+    intros Hc0 Hcs Nz Hn. unfold pdiv_fpsi_minimal.
+    destruct (fo_inv _ _ _ _ H c0 Hc0 Nz) as [li [Ei [Hli Dli]]]. rewrite Ei.
+    assert (Inv0 : fpsi_inv (den c0) (D cs1) 0 [li]).
+    { split; [constructor; [exact Hli|constructor]|]. split; [reflexivity|]. intros k Hk. replace k with O by lia.
+      cbn [map rev app]. rewrite coeff_pmul. cbn [ksum]. rewrite !coeff_cons_0, Dli. unfold PolySpec.pone. rewrite coeff_cons_0.
+      field. exact Nz. }
+    pose proof (fpsi_min_loop_spec c0 cs1 li Hc0 Hcs Hli Nz Dli (Z.to_nat n) O [li] Inv0) as [G1 [G2 G3]].
+    rewrite Nat.add_0_r in G2, G3.
+    exists (rev (pdiv_fpsi_min_loop o (Z.to_nat n) cs1 li [li])). split; [reflexivity|].
+    split; [apply Forall_rev; exact G1|]. split; [rewrite rev_length; exact G2|].
+    intros i Hi. rewrite map_rev. cbn [map]. apply G3. lia.
+  Qed.
+  (* it panics exactly when there is no constant coefficient or it is zero *)
+  Theorem fpsi_minimal_panics l n : okl l -> (l = [] \/ exists c0 cs1, l = c0 :: cs1 /\ den c0 = 0) ->
+    pdiv_fpsi_minimal o l n = None.
+  Proof.
+    intros Hl [->|[c0 [cs1 [-> Z]]]]; [reflexivity|]. inversion Hl as [|? ? Hc0 _]; subst.
+    unfold pdiv_fpsi_minimal. rewrite (fo_inv0 _ _ _ _ H c0 Hc0 Z). reflexivity.
+  Qed.
+End FpsiMinimal.
+
+(* ================================================================== 7. formal_power_series_inverse_newton
+   Proved: the constant case and the rounds BEFORE the switch to the NTT domain (`multiply`-based Newton steps), hence the
+   whole function whenever num_rounds <= switch_point.  `multiply` enters through the hypothesis `Hmult`, which is
+   exactly the conclusion of PolyCoreProofs.multiply_spec (C07; there under the C06 hypotheses on ntt / intt, with
+   B = 2 ^ lmax).  Not proved: the NTT-domain rounds (C09_fpsi_newton_full). *)
+Section FpsiNewton.
+  Context {F K : Type} (o : fops F) (fk : fieldK K) (ok : F -> Prop) (den : F -> K).
+  Hypothesis H : field_ok o fk ok den.
+  Variable ntt : list F -> option (list F).
+  Variable intt : list F -> option (list F).
+  Local Notation "0" := (k0 fk).
+  Local Notation "1" := (k1 fk).
+  Local Infix "+" := (kadd fk).
+  Local Infix "*" := (kmul fk).
+  Local Notation D := (map den).
+  Local Notation okl := (Forall ok).
+  Local Notation peq := (peq fk).
+  Local Notation coeff := (coeff fk).
+  Local Notation pmul := (pmul fk).
+  Local Notation psub := (psub fk).
+  Local Notation pscale := (pscale fk).
+  Local Notation pone := (pone fk).
+  Local Notation pmodx := (pmodx fk).
+  Add Field kfield_PolyDivProofs_Newton : (kFT fk).
+  (* degree 0: the exact inverse, for every precision *)
+  Theorem fpsi_newton_constant l n : okl l -> poly_degree o l = 0%Z ->
+    exists g, pdiv_fpsi_newton o ntt intt l n = Some g /\ okl g /\ peq (pmul (D l) (D g)) pone.
+  Proof.
+    intros Hl Ed. unfold pdiv_fpsi_newton. rewrite Ed. cbn [Z.eqb].
+    pose proof (degree_pdeg o fk ok den H l Hl) as Dd. rewrite Ed in Dd.
+    destruct (coeff_at_pdeg fk (D l) ltac:(lia)) as [C1 C2]. rewrite <- Dd in C1. change (Z.to_nat 0) with O in C1.
+    pose proof (degree_lt_len o l) as Ll. rewrite Ed in Ll.
+    destruct (idx_lookup l 0 ltac:(lia)) as [c [I1 I2]]. rewrite I1. change (Z.to_nat 0) with O in I2.
+    pose proof (nth_error_ok ok l _ c Hl I2) as Hc.
+    assert (Ec : coeff (D l) 0 = den c) by (rewrite (coeff_D fk den); rewrite I2; reflexivity).
+    assert (Nz : den c <> 0) by (rewrite <- Ec, C1; exact C2).
+    destruct (fo_inv _ _ _ _ H c Hc Nz) as [ci [Ei [Hci Dci]]]. rewrite Ei.
+    exists [ci]. split; [reflexivity|]. split; [constructor; [exact Hci|constructor]|].
+    apply peq_intro. intros i. cbn [map]. rewrite (peq_elim fk _ _ (pmul_comm fk (D l) [den ci]) i).
+    rewrite <- (peq_elim fk _ _ (pscale_as_pmul fk (den ci) (D l)) i), coeff_pscale.
+    destruct i as [|i].
+    - rewrite Ec, Dci. unfold PolySpec.pone. rewrite coeff_cons_0. field. exact Nz.
+    - rewrite (coeff_above_pdeg fk (D l) (S i)) by lia. unfold PolySpec.pone. rewrite coeff_cons_S, coeff_nil. ring.
+  Qed.
+
+  Variable B : Z.
+  Hypothesis Hmult : forall a b, okl a -> okl b -> (poly_degree o a + poly_degree o b + 1 <= B)%Z ->
+    exists r, poly_multiply o ntt intt a b = Some r /\ okl r /\
+              (zlen r <= Z.max 0 (poly_degree o a + poly_degree o b + 1))%Z /\ peq (D r) (pmul (D a) (D b)).
+
+  (* bound on the stored length of f after k rounds: (2^k - 1) * deg + 1 *)
+  Fixpoint newton_len (sd : Z) (k : nat) : Z :=
+    match k with O => 1%Z | S k' => (2 * newton_len sd k' - 1 + sd)%Z end.
+  Lemma newton_len_ge1 sd k : (0 <= sd)%Z -> (1 <= newton_len sd k)%Z.
+  Proof. intros Hs. induction k; cbn [newton_len]; lia. Qed.
+  Lemma newton_len_mono sd k j : (0 <= sd)%Z -> (newton_len sd j <= newton_len sd (k + j))%Z.
+  Proof.
+    intros Hs. induction k; cbn [Nat.add newton_len]; [lia|]. pose proof (newton_len_ge1 sd (k + j) Hs). lia.
+  Qed.
+  Lemma sub_length (a b : list F) : length (poly_sub o a b) = Nat.max (length a) (length b).
+  Proof.
+    revert b. induction a as [|x a IH]; intros [|y b]; cbn [poly_sub length Nat.max]; try reflexivity.
+    - rewrite map_length. reflexivity.
+    - rewrite IH. reflexivity.
+  Qed.
+
+  Lemma newton_std_loop_spec l two sd : okl l -> ok two -> den two = 1 + 1 -> poly_degree o l = sd -> (0 <= sd)%Z ->
+    forall k j f m, okl f -> (zlen f <= newton_len sd j)%Z -> (newton_len sd (k + j) <= B)%Z ->
+      pmodx m (pmul (D f) (D l)) pone ->
+      exists f', pdiv_newton_std_loop o ntt intt k l two f = Some f' /\ okl f' /\
+                 (zlen f' <= newton_len sd (k + j))%Z /\ pmodx (m * 2 ^ k) (pmul (D f') (D l)) pone.
+  Proof.
+    intros Hl Htwo Etwo Esd Hs. induction k as [|k IH]; intros j f m Hf Lf LB Pm.
+    - exists f. split; [reflexivity|]. split; [exact Hf|]. split; [exact Lf|]. rewrite Nat.mul_1_r. exact Pm.
+    - cbn [pdiv_newton_std_loop].
+      pose proof (degree_lt_len o f) as Df. pose proof (newton_len_ge1 sd j Hs) as G1.
+      assert (LB1 : (newton_len sd (S j) <= B)%Z).
+      { pose proof (newton_len_mono sd k (S j) Hs) as M. replace (k + S j)%nat with (S k + j)%nat in M by lia. lia. }
+      cbn [newton_len] in LB1.
+      destruct (Hmult f f Hf Hf ltac:(lia)) as [ff [E1 [Hff [Lff Pff]]]]. rewrite E1.
+      pose proof (degree_lt_len o ff) as Dff.
+      destruct (Hmult ff l Hff Hl ltac:(lia)) as [sub [E2 [Hsub [Lsub Psub]]]]. rewrite E2.
+      set (f1 := poly_sub o (poly_scalar_mul_mut o f two) sub).
+      assert (Hsm : okl (poly_scalar_mul_mut o f two)) by (apply (scalar_mul_ok o fk ok den H); assumption).
+      assert (Hf1 : okl f1) by (apply (sub_ok o fk ok den H); assumption).
+      assert (Lf1 : (zlen f1 <= newton_len sd (S j))%Z).
+      { unfold f1, zlen. rewrite sub_length. unfold poly_scalar_mul_mut, poly_scalar_mul, poly_scalar_mul_gen.
+        rewrite map_length. cbn [newton_len]. unfold zlen in *. lia. }
+      assert (Pf1 : pmodx (m + m) (pmul (D f1) (D l)) pone).
+      { apply (newton_step fk (D f) (D l) (D f1) (den two) m Pm); [|exact Etwo].
+        unfold f1. rewrite (sub_D o fk ok den H) by assumption.
+        unfold poly_scalar_mul_mut. rewrite (scalar_mul_D o fk ok den H) by assumption.
+        rewrite Psub, Pff. reflexivity. }
+      destruct (IH (S j) f1 (m + m)%nat Hf1 Lf1 ltac:(replace (k + S j)%nat with (S k + j)%nat by lia; exact LB) Pf1)
+        as [f' [E3 [Hf' [Lf' Pf']]]].
+      exists f'. split; [exact E3|]. split; [exact Hf'|].
+      replace (S k + j)%nat with (k + S j)%nat by lia. split; [exact Lf'|].
+      replace (m * 2 ^ S k)%nat with ((m + m) * 2 ^ k)%nat by (cbn [Nat.pow]; lia). exact Pf'.
+  Qed.
+
+  Lemma kofZ_2 : kofZ fk 2 = 1 + 1.
+  Proof. change 2%Z with (1 + 1)%Z. rewrite kofZ_add, kofZ_1. reflexivity. Qed.
+
+  (* all Newton rounds before the switch point: f * g = 1 mod X^precision *)
+  Theorem fpsi_newton_std_spec c0 cs n : okl (c0 :: cs) -> den c0 <> 0 -> (0 <= n)%Z -> (1 <= poly_degree o (c0 :: cs))%Z ->
+    let sd := poly_degree o (c0 :: cs) in
+    let nr := Z.log2 (next_pow2 n) in
+    let sp := (if FORMAL_POWER_SERIES_INVERSE_CUTOFF <? sd then 0 else Z.log2 (FORMAL_POWER_SERIES_INVERSE_CUTOFF / sd))%Z in
+    (nr <= sp)%Z -> (newton_len sd (Z.to_nat nr) <= B)%Z ->
+    exists g, pdiv_fpsi_newton o ntt intt (c0 :: cs) n = Some g /\ okl g /\
+              pmodx (Z.to_nat n) (pmul (D (c0 :: cs)) (D g)) pone.
+  Proof.
+    intros Hl Nz Hn Hsd sd nr sp Hrs HB. unfold pdiv_fpsi_newton. fold sd. fold nr.
+    destruct (sd =? 0)%Z eqn:E0; [apply Z.eqb_eq in E0; unfold sd in E0; lia|].
+    destruct (sd <? 0)%Z eqn:E1; [apply Z.ltb_lt in E1; unfold sd in E1; lia|].
+    fold sp. change (idx (c0 :: cs) 0) with (Some c0).
+    inversion Hl as [|? ? Hc0 Hcs]; subst.
+    destruct (fo_inv _ _ _ _ H c0 Hc0 Nz) as [ci [Ei [Hci Dci]]]. rewrite Ei.
+    destruct (fo_from _ _ _ _ H 2%Z ltac:(lia)) as [T1 T2]. rewrite kofZ_2 in T2.
+    assert (Hnr : (0 <= nr)%Z) by apply Z.log2_nonneg.
+    rewrite Z.min_l by exact Hrs.
+    assert (P0 : pmodx 1 (pmul (D [ci]) (D (c0 :: cs))) pone).
+    { intros i Hi. replace i with O by lia. cbn [map]. rewrite coeff_pmul. cbn [ksum]. rewrite !coeff_cons_0. unfold PolySpec.pone.
+      rewrite coeff_cons_0, Dci. field. exact Nz. }
+    destruct (newton_std_loop_spec (c0 :: cs) (ffrom_u64 o 2) sd Hl T1 T2 eq_refl ltac:(unfold sd; lia)
+                (Z.to_nat nr) O [ci] 1%nat ltac:(constructor; [exact Hci|constructor]) ltac:(cbn; lia)
+                ltac:(rewrite Nat.add_0_r; exact HB) P0) as [f [E [Hf [_ Pf]]]].
+    rewrite E. apply Z.leb_le in Hrs. rewrite Hrs. exists f. split; [reflexivity|]. split; [exact Hf|].
+    apply (pmodx_peq fk _ (pmul (D f) (D (c0 :: cs))) _ pone pone); [apply pmul_comm|reflexivity|].
+    apply (pmodx_le fk (1 * 2 ^ Z.to_nat nr)); [|exact Pf].
+    (* 2 ^ num_rounds = next_power_of_two(precision) >= precision *)
+    rewrite Nat.mul_1_l. destruct (Z.eq_dec n 0) as [->|Hn0]; [cbn; lia|].
+    destruct (next_pow2_spec n ltac:(lia)) as [lg [N1 [N2 _]]].
+    assert (Enr : nr = Z.of_nat lg) by (unfold nr; rewrite N1; apply Z.log2_pow2; lia).
+    rewrite Enr, Nat2Z.id. apply Nat2Z.inj_le. rewrite Nat2Z.inj_pow. change (Z.of_nat 2) with 2%Z. lia.
+  Qed.
+End FpsiNewton.
+
+(* the same under the C06 hypotheses on the transforms (as proofs/PolyCoreProofs.v, Section FastSame, does for C07):
+   ntt is the DFT at a root `wr l` of order 2^l, intt its inverse, for all lengths 2^l with l <= lmax *)
+From TF Require Import Dft NttDft.
+Section FpsiNewtonDft.
+  Context {F K : Type} (o : fops F) (fk : fieldK K) (ok : F -> Prop) (den : F -> K).
+  Hypothesis H : field_ok o fk ok den.
+  Variable ntt : list F -> option (list F).
+  Variable intt : list F -> option (list F).
+  Variable lmax : nat.
+  Variable wr : nat -> K.
+  Hypothesis ntt_is_dft : forall l x, (l <= lmax)%nat -> length x = (2 ^ l)%nat -> Forall ok x ->
+    exists y, ntt x = Some y /\ Forall ok y /\ length y = length x /\ map den y = dft fk (wr l) (map den x).
+  Hypothesis intt_is_idft : forall l x, (l <= lmax)%nat -> length x = (2 ^ l)%nat -> Forall ok x ->
+    exists y, intt x = Some y /\ Forall ok y /\ length y = length x /\ map den y = idft fk (wr l) (map den x).
+  Hypothesis wr_half_root : forall l, (l <= lmax)%nat -> half_root fk (wr l) l.
+  Hypothesis wr_nonzero : forall l, (l <= lmax)%nat -> wr l <> k0 fk.
+  Hypothesis two_nz : two_neq_0 fk.
+
+  Theorem fpsi_newton_std_dft c0 cs n : Forall ok (c0 :: cs) -> den c0 <> k0 fk -> (0 <= n)%Z -> (1 <= poly_degree o (c0 :: cs))%Z ->
+    let sd := poly_degree o (c0 :: cs) in
+    let nr := Z.log2 (next_pow2 n) in
+    let sp := (if FORMAL_POWER_SERIES_INVERSE_CUTOFF <? sd then 0 else Z.log2 (FORMAL_POWER_SERIES_INVERSE_CUTOFF / sd))%Z in
+    (nr <= sp)%Z -> (newton_len sd (Z.to_nat nr) <= 2 ^ Z.of_nat lmax)%Z ->
+    exists g, pdiv_fpsi_newton o ntt intt (c0 :: cs) n = Some g /\ Forall ok g /\
+              pmodx fk (Z.to_nat n) (pmul fk (map den (c0 :: cs)) (map den g)) (pone fk).
+  Proof.
+    apply (fpsi_newton_std_spec o fk ok den H ntt intt (2 ^ Z.of_nat lmax)).
+    intros a b Ha Hb Hsz.
+    exact (multiply_spec o fk ok den H ntt intt lmax wr ntt_is_dft intt_is_idft wr_half_root wr_nonzero two_nz a b Ha Hb Hsz).
+  Qed.
+End FpsiNewtonDft.
+
+(* ================================================================== 8. structured multiples *)
+Section StructuredMultiple.
+  Context {F K : Type} (o : fops F) (fk : fieldK K) (ok : F -> Prop) (den : F -> K).
+  Hypothesis H : field_ok o fk ok den.
+  Variable ntt : list F -> option (list F).
+  Variable intt : list F -> option (list F).
+  Local Notation "0" := (k0 fk).
+  Local Notation "1" := (k1 fk).
+  Local Infix "*" := (kmul fk).
+  Local Notation D := (map den).
+  Local Notation okl := (Forall ok).
+  Local Notation peq := (peq fk).
+  Local Notation pzero := (pzero fk).
+  Local Notation coeff := (coeff fk).
+  Local Notation pdeg := (pdeg fk).
+  Local Notation pdvd := (pdvd fk).
+  Add Field kfield_PolyDivProofs_Structured : (kFT fk).
+
+  (* the documented panics: zero polynomial, requested degree below the degree *)
+  Theorem structured_multiple_panics l n : (poly_degree o l < 0 \/ n < poly_degree o l)%Z ->
+    pdiv_structured_multiple_of_degree o ntt intt l n = None.
+  Proof.
+    intros Hc. unfold pdiv_structured_multiple_of_degree.
+    destruct (poly_degree o l <? 0)%Z eqn:E0; [reflexivity|]. apply Z.ltb_ge in E0.
+    destruct Hc as [Hc|Hc]; [lia|]. apply Z.ltb_lt in Hc. rewrite Hc. reflexivity.
+  Qed.
+  (* a non-zero constant c: the result is c^-1 X^n - a multiple (of anything non-zero constant) of degree exactly n.
+     NOTE it is monic only for c = 1, although the doc comment promises "X^n + (something of much smaller degree)" *)
+  Theorem structured_multiple_constant l n : okl l -> poly_degree o l = 0%Z -> (0 <= n)%Z ->
+    exists r, pdiv_structured_multiple_of_degree o ntt intt l n = Some r /\ okl r /\
+              pdvd (D l) (D r) /\ pdeg (D r) = n /\
+              forall c0, idx l 0 = Some c0 -> plead fk (D r) = kinv fk (den c0).
+  Proof.
+    intros Hl Ed Hn. unfold pdiv_structured_multiple_of_degree. rewrite Ed. cbn [Z.ltb Z.compare Z.eqb].
+    destruct (n <? 0)%Z eqn:En; [apply Z.ltb_lt in En; lia|].
+    pose proof (degree_pdeg o fk ok den H l Hl) as Dd. rewrite Ed in Dd.
+    destruct (coeff_at_pdeg fk (D l) ltac:(lia)) as [C1 C2]. rewrite <- Dd in C1. change (Z.to_nat 0) with O in C1.
+    pose proof (degree_lt_len o l) as Ll. rewrite Ed in Ll.
+    destruct (idx_lookup l 0 ltac:(lia)) as [c [I1 I2]]. rewrite I1. change (Z.to_nat 0) with O in I2.
+    pose proof (nth_error_ok ok l _ c Hl I2) as Hc.
+    assert (Ec : coeff (D l) 0 = den c) by (rewrite (coeff_D fk den); rewrite I2; reflexivity).
+    assert (Nz : den c <> 0) by (rewrite <- Ec, C1; exact C2).
+    destruct (fo_inv _ _ _ _ H c Hc Nz) as [ci [Ei [Hci Dci]]]. rewrite Ei.
+    exists (zrepeat (fzero o) n ++ [ci]). split; [reflexivity|].
+    split; [apply Forall_app; split; [apply Forall_zrepeat; exact (ok0 o fk ok den H)|constructor; [exact Hci|constructor]]|].
+    assert (Nci : den ci <> 0) by (rewrite Dci; apply kinv_neq_0; exact Nz).
+    assert (En' : pnorm fk (D (zrepeat (fzero o) n ++ [ci])) = D (zrepeat (fzero o) n ++ [ci])).
+    { apply pnorm_last_id. rewrite map_app. cbn [map]. rewrite last_last. exact Nci. }
+    split; [|split].
+    - (* everything is a multiple of a non-zero constant *)
+      destruct (is_rem_constant_modulus fk (D (zrepeat (fzero o) n ++ [ci])) (D l) ltac:(lia)) as [[q Eq] _].
+      exists q. rewrite Eq. apply padd_0_r.
+    - unfold PolySpec.pdeg. rewrite En', map_length, app_length. unfold zrepeat. rewrite repeat_length. cbn [length]. lia.
+    - intros c0 Ic0. inversion Ic0; subst c0. unfold PolySpec.plead. rewrite En', map_app. cbn [map].
+      rewrite last_last. exact Dci.
+  Qed.
+End StructuredMultiple.
